@@ -31,6 +31,9 @@ def configs(t):
         cfg(3, 4, 0, late=[2], warm=6, cost=4),
         # a late joiner is held CHECKED while the distribution lasts (slow start) and is lost in that state
         cfg(3, 5, 0, late=[2], rules=True, slow_start=True, F=1, faults=['crash'], crashable=[2], warm=4, cost=7),
+        # slow exchanges: late reply of a handshake, TICK on the wire (with and without fencing)
+        cfg(2, 5, 0, faults=['hang', 'lag'], fence=True, late=[1], warm=6, cost=9),
+        cfg(2, 4, 0, faults=['hang', 'lag'], late=[1], warm=6, cost=6),
     ]
     if t == 'quick':
         return q
@@ -47,18 +50,52 @@ def configs(t):
     return q + th
 
 
+# ---------------------------------------------------------------------------------------------
+# the same monitor over the job explorations (requests never acknowledged, targets lost, slow stops)
+# ---------------------------------------------------------------------------------------------
+from .c10 import TermJobs, configs as c10_configs
+from ..monitors import internal_errors
+
+
+class JobErrors(TermJobs):
+    """C10's worlds (start / stop jobs with processes that never answer, back off, instances lost) judged for
+    internal errors, along the exploration and along the worst-case closure (nothing answers any more)."""
+    name = 'joberrors'
+
+    def closure_check(self, w, cfg):
+        w.round_robin(self.bound(cfg))
+        obs = w.drain_observations()
+        w.violations = []
+        return internal_errors(obs) or None
+
+
+JDRIVER = JobErrors('C16', ['C16'])
+
+
+def job_configs(t):
+    out = []
+    for c in c10_configs('quick'):
+        out.append(dict(c, name='jobs-' + c['name']))
+    if t == 'thorough':
+        out += [dict(c, name='jobs-' + c['name']) for c in c10_configs('thorough') if c['name'].endswith('-deep')]
+    return out
+
+
 def main():
     t = tier()
     cfgs = configs(t)
     cap = int(os.environ.get('VERIF_CAP_S', '0')) or (None if t == 'quick' else 2400)
-    for c in cfgs:
+    jcfgs = job_configs(t)
+    for c in cfgs + jcfgs:
         c['max_seconds'] = cap
     out, complete = run_e1(
-        'C16', [(DRIVER, cfgs, kwargs_of('none'))],
+        'C16', [(DRIVER, cfgs, kwargs_of('none')),
+                (JDRIVER, jcfgs, lambda c: {'deviations': c['D'], 'closure': 'all', 'max_seconds': c.get('max_seconds')})],
         rule='every E1 membership exploration (ticks, deliveries, crashes, restarts, isolations, stalls, restart / '
              'shutdown / end_sync requests, automatic start of an application) with the internal-error monitor: no CRIT '
              'log record carrying a traceback, no exception other than RPCError leaving an XML-RPC method, no exception '
-             'escaping a proxy thread, no un-marshallable XML-RPC result',
+             'escaping a proxy thread, no un-marshallable XML-RPC result; the same monitor over the job explorations of C10 '
+             '(requests never acknowledged, repeated BACKOFF, stuck stops, targets lost) and their worst-case closures',
         assumptions=['critical log records without a traceback (e.g. OffState after 15 s) are not internal errors'])
     # part 2: hostile product (reachable instance states x next events, RPC matrix, heterogeneous configurations)
     from . import c16b
@@ -83,4 +120,4 @@ def replay(payload):
     if payload.get('driver') == 'C16-hostile':
         print(payload['events'])
         return 0
-    return replay_e1(payload, {'cluster': DRIVER})
+    return replay_e1(payload, {'cluster': DRIVER, 'joberrors': JDRIVER})
